@@ -357,8 +357,24 @@ def _budget_of(op):
 
 
 def plan_faults(doc, counts, rng):
-    """Place faults inside the actual range of observation points seen by the twin."""
-    plan = doc.get("fault_plan") or {}
+    """Place faults inside the actual range of observation points seen by the twin.  The plan is one
+    dict or a list of them (each with its own operations, kinds and sites)."""
+    plans = doc.get("fault_plan") or {}
+    if isinstance(plans, dict):
+        plans = [plans]
+    faults = []
+    for plan in plans:
+        faults.extend(_plan_one(plan, doc, counts, rng))
+    seen, out = set(), []
+    for f in faults:
+        key = (f["op"], f.get("worker"), f["site"], f["k"])
+        if key not in seen:
+            seen.add(key)
+            out.append(f)
+    return out
+
+
+def _plan_one(plan, doc, counts, rng):
     n = int(plan.get("n", 0))
     kinds = plan.get("kinds") or ["slow"]
     faults = []
@@ -392,7 +408,10 @@ def plan_faults(doc, counts, rng):
             options = [x for x in options if x[1] != "clock"] or options
         worker, site, c = rng.choice(options)
         r = rng.random()
-        if r < 0.2:
+        if plan.get("early"):
+            # among the first observation points of the call (where a manager still prepares itself)
+            k = rng.randrange(min(c, int(plan["early"])))
+        elif r < 0.2:
             k = 0
         elif r < 0.35:
             k = c - 1
@@ -537,6 +556,7 @@ def run_scenario(doc, full_trace=False):
             "records": recs if violations else None,
             "twin_records": trecs if violations else None,
             "counts": _counts_json(counts),
+            "run_counts": _counts_json(S.counts),
             "orders": [list(map(list, o)) for o in ph.mp_orders],
             "sticky_pre_timeout": sum(
                 1
@@ -562,6 +582,37 @@ def job_trace(doc):
     return run_scenario(doc, full_trace=True)
 
 
+def _forked(fn):
+    """Result of fn() computed in a forked child (None if it fails)."""
+    r, w = os.pipe()
+    pid = os.fork()
+    if pid == 0:
+        try:
+            os.close(r)
+            try:
+                data = pickle.dumps(fn())
+            except BaseException:  # noqa: BLE001
+                data = pickle.dumps(None)
+            off = 0
+            while off < len(data):
+                off += os.write(w, data[off : off + 65536])
+        finally:
+            os._exit(0)
+    os.close(w)
+    chunks = []
+    while True:
+        bts = os.read(r, 1 << 16)
+        if not bts:
+            break
+        chunks.append(bts)
+    os.close(r)
+    os.waitpid(pid, 0)
+    try:
+        return pickle.loads(b"".join(chunks))
+    except Exception:  # noqa: BLE001
+        return None
+
+
 def job_sweep(doc):
     """Thorough C14: after the twin, run EVERY single-fault position of the swept operation,
     each in its own fork (so that each position is exactly what a replay of it executes)."""
@@ -571,6 +622,21 @@ def job_sweep(doc):
     counts = dict(S.counts)
     seams.SIM = None
     sw = doc["sweep"]
+    prefix = []
+    if sw.get("prefix_plan"):
+        # a seeded fault in an EARLIER call comes first in every plan; the positions of the swept call
+        # are those of a run that has been through it (the call may then do work it would otherwise
+        # have found done)
+        prefix = _plan_one(sw["prefix_plan"], doc, counts, stream(doc["seed"], "prefix"))
+        if prefix:
+            d0 = {k: v for k, v in doc.items() if k not in ("sweep", "fault_plan")}
+            d0["faults"] = list(prefix)
+            rc = _forked(lambda: run_scenario(d0).get("run_counts"))
+            if isinstance(rc, dict):
+                counts = {}
+                for key, c in rc.items():
+                    oo, ww, ss = key.split("|", 2)
+                    counts[(int(oo), None if ww == "-" else int(ww), ss)] = c
     o = sw["op"]
     op = doc["ops"][o]
     b = _budget_of(op)
@@ -601,6 +667,8 @@ def job_sweep(doc):
         rng = stream(doc["seed"], "sweep")
         positions = sorted(rng.sample(positions, cap), key=lambda f: json.dumps(f, sort_keys=True))
     plans = [[f] for f in positions]
+    if prefix:
+        plans = [p for p in plans if (p[0]["op"], p[0].get("worker"), p[0]["site"], p[0]["k"]) != (prefix[0]["op"], prefix[0].get("worker"), prefix[0]["site"], prefix[0]["k"])]
     if sw.get("pairs") and 2 <= len(positions) <= int(sw.get("pairs_max_positions", 16)):
         # small workloads: every PAIR of fault positions as well (two expiries / an expiry and an
         # unknown / ... in one call)
@@ -612,8 +680,8 @@ def job_sweep(doc):
     results = []
     for fl in plans:
         d = {k: v for k, v in doc.items() if k not in ("sweep", "fault_plan")}
-        d["faults"] = list(fl)
-        d["class"] = "sweep" if len(fl) == 1 else "sweep2"
+        d["faults"] = list(prefix) + list(fl)
+        d["class"] = "sweep" if len(d["faults"]) == 1 else "sweep2"
         r, w = os.pipe()
         pid = os.fork()
         if pid == 0:
@@ -758,11 +826,13 @@ def generate(prop, verif_seed, idx, tier="quick", cls=None, recover=False):
         if prop == "C13":
             cls = g.choices(["seq", "dup", "par", "stall", "budget", "failed_call", "long"], weights=[30, 11, 26, 12, 11, 7, 3])[0]
         else:
-            cls = g.choices(["nofault", "seq", "par", "z3", "natural", "poison"], weights=[9, 30, 18, 22, 9, 12])[0]
+            cls = g.choices(["nofault", "seq", "par", "z3", "natural", "poison", "relapse"], weights=[9, 30, 18, 22, 9, 12, 10])[0]
     if prop == "C13" and cls in ("failed_call", "long"):
         return _generate_history(prop, sseed, idx, g, cls)
     if cls == "poison":
         return _generate_poison(prop, sseed, idx, g)
+    if cls == "relapse":
+        return _generate_relapse(prop, sseed, idx, g)
     # ---- base -------------------------------------------------------------------------
     weakly_base = g.random() < 0.15
     defaults_base = False
@@ -793,6 +863,14 @@ def generate(prop, verif_seed, idx, tier="quick", cls=None, recover=False):
             t = W.cond_text(W.gen_chain_query(g, sig, conds))
             if t not in pool:
                 pool.append(t)
+    if weakly_base and conds:
+        # queries decided by the infinity layer alone (the vacuity tests of the extended operators)
+        for _ in range(g.choice([1, 2, 3])):
+            q = W.gen_infinity_query(g, sig, conds)
+            if q is not None:
+                t = W.cond_text(q)
+                if t not in pool:
+                    pool.append(t)
     if defaults_base and len(conds) >= 3:
         for _ in range(2):
             t = W.cond_text(W.gen_survivor_query(g, conds))
@@ -1084,6 +1162,60 @@ def _generate_poison(prop, sseed, idx, g):
     return doc
 
 
+def _generate_relapse(prop, sseed, idx, g):
+    """C14 class 'relapse': ONE manager runs out of budget twice.  The first budgeted call loses its
+    budget at one of its first observation points (for c-inference: inside the preparation of the
+    manager), a later budgeted call on the same queries expires again somewhere else, and a last call
+    without budgets re-asks them.  What the first expiry leaves behind must neither leak into the rows
+    of the second one nor into the recovery."""
+    from sim.gen import workload as W
+
+    if g.random() < 0.4 and W.shipped_bases():
+        src, sig, text = g.choice(W.shipped_bases())
+        body = text[text.find("{") + 1 : text.rfind("}")]
+        ctexts = [c.strip().rstrip(",").replace(" ", "") for c in body.split("\n") if "|" in c]
+        conds = None
+    else:
+        sig, conds = W.gen_base(g, want="consistent", max_atoms=g.choice([3, 4, 5]), max_conds=g.choice([3, 5]))
+        text, src = W.base_text(sig, conds), "gen"
+        ctexts = [W.cond_text(c) for c in conds]
+    pool = list(ctexts)  # the conditionals of the base themselves: entailed by every operator
+    for _ in range(3):
+        pool.append(W.cond_text(W.gen_query(g, sig, conds) if conds else W.gen_conditional(g, sig, "literal")))
+    pool = list(dict.fromkeys(pool))
+    cfg = _pick_cfg(g, systems=["c-inference", "c-inference", "c-inference", "system-w", "lex_inf", "system-z"])
+    cfg["weakly"] = False
+    ops = [cfg]
+    asked = g.sample(pool, min(len(pool), g.randint(1, 3)))
+    first = {"op": "inference", "mgr": 0, "batch": [[k + 1, t] for k, t in enumerate(asked)], "multi": False}
+    mode = g.choice(["pre", "pre", "pre+inf", "total"])
+    if "pre" in mode:
+        first["pre"] = g.choice([1, 2, 5])
+    if "inf" in mode:
+        first["inf"] = g.choice([1, 2, 5])
+    if mode == "total":
+        first["total"] = g.choice([1, 2, 5])
+    ops.append(first)
+    if g.random() < 0.2:
+        # a call without budgets in between (the manager is then fully prepared)
+        some = g.sample(pool, min(len(pool), g.randint(1, 2)))
+        ops.append({"op": "inference", "mgr": 0, "batch": [[k + 1, t] for k, t in enumerate(some)], "multi": False})
+    again = list(asked)
+    if g.random() < 0.3:
+        g.shuffle(again)
+    second = {"op": "inference", "mgr": 0, "batch": [[k + 1, t] for k, t in enumerate(again)], "multi": False}
+    second[g.choice(["inf", "inf", "total"])] = g.choice([1, 2, 5])
+    ops.append(second)
+    i_first, i_second = 1, len(ops) - 1
+    ops.append({"op": "inference", "mgr": 0, "batch": [[k + 1, t] for k, t in enumerate(asked)], "multi": False})
+    doc = {"property": prop, "seed": sseed, "idx": idx, "class": "relapse", "knobs": {"svc_scale": g.choice([0.1, 1.0, 1.0])}, "base": {"text": text, "src": src}, "ops": ops}
+    doc["fault_plan"] = [
+        {"n": 1, "kinds": ["jump", "slow"], "ops": [i_first], "early": g.choice([2, 4, 8])},
+        {"n": 1, "kinds": ["slow", "slow", "jump"], "ops": [i_second]},
+    ]
+    return doc
+
+
 def canonical(doc):
     d = {k: doc[k] for k in ("property", "knobs", "base", "base2", "ops") if k in doc}
     d["faults"] = doc.get("faults")
@@ -1143,7 +1275,7 @@ SPECS = {
             "scenario = C13-style workload whose calls carry total/preprocessing/per-query budgets, run under the virtual clock with 0-3 faults placed INSIDE the "
             "range of observation points measured by a budget-free twin run of the same operations: slow solver call (site, k, duration), clock jump at the k-th "
             "clock read, solver 'unknown' (flavours a/b/c) where a z3 limit is active, worker crash at its k-th solver call, worker exit stall; classes nofault, "
-            "natural (service times scaled until budgets expire by themselves), seq, par, z3, poison (expiry inside a correction-set enumeration + recovery call), sweep (every single-fault position of one budgeted call; for calls with <= 16 positions every PAIR of positions as well = sweep2). "
+            "natural (service times scaled until budgets expire by themselves), seq, par, z3, poison (expiry inside a correction-set enumeration + recovery call), relapse (one manager expires in two calls: early in the first - for c-inference inside its preparation - and anywhere in a later one on the same queries, then a recovery call; in sweeps the first expiry is seeded and every position of the second call is tried after it), sweep (every single-fault position of one budgeted call; for calls with <= 16 positions every PAIR of positions as well = sweep2). "
             "Oracle: each row is flagged-and-False or equals the twin's row; no exception escapes; later calls unaffected. Distinct = distinct canonical JSON "
             "(workload + explicit faults); non-trivial = a budget was set AND a fault fired or an expiry was observed or a row was flagged AND at least one row stayed unflagged."
         ),
@@ -1181,7 +1313,7 @@ def jobs(prop, verif_seed, n, tier):
         made = 0
         idx = 10**6
         while made < ns and idx < 10**6 + 50 * ns + 50:
-            doc = generate("C14", verif_seed, idx, tier, cls=("poison", "z3", "seq", "z3")[made % 4], recover=True)
+            doc = generate("C14", verif_seed, idx, tier, cls=("poison", "z3", "seq", "z3", "poison", "z3", "relapse", "z3")[made % 8], recover=True)
             idx += 1
             want_multi = tier == "thorough" and made % 8 == 7
             if want_multi:
@@ -1189,8 +1321,13 @@ def jobs(prop, verif_seed, n, tier):
             cand = [i for i, op in enumerate(doc["ops"]) if op["op"] == "inference" and _budget_of(op) > 0 and bool(op.get("multi")) == want_multi]
             if not cand:
                 continue
+            sweep = {"op": cand[0], "max_positions": 120 if tier == "quick" else 400, "pairs": tier == "thorough" or made % 4 == 0}
+            if doc.get("class") == "relapse" and len(cand) >= 2 and isinstance(doc.get("fault_plan"), list):
+                # the first expiry is seeded, EVERY position of the second budgeted call is tried after it
+                sweep["op"] = cand[1]
+                sweep["prefix_plan"] = doc["fault_plan"][0]
             doc.pop("fault_plan", None)
-            doc["sweep"] = {"op": cand[0], "max_positions": 120 if tier == "quick" else 400, "pairs": tier == "thorough" or made % 4 == 0}
+            doc["sweep"] = sweep
             yield {"id": "sweep%d" % made, "engine": NAME, "func": "sweep", "doc": doc, "wall_cap": 2400}
             made += 1
     for i in range(n):
